@@ -128,11 +128,15 @@ def _aux(detector, code, total):
         pass
 
 
-def encs(detector, ident=0, slots="", a=0.0, b=0.0, c=0.0, d=0.0, sleep_scale=0.0, sleep_mult=1, slow_sum=None):
+def encs(detector, ident=0, slots="", a=0.0, b=0.0, c=0.0, d=0.0, sleep_scale=0.0, sleep_mult=1, slow_sum=None,
+         trace=-1):
     """One of SEVERAL probe instances in a pipeline (parameters with the same short name live in different
     model instances).  `slots` = "a:0,c:2": the value RECEIVED for argument `a` is written (as the injective
     code of `encode([value])`) into pixel[0, 0], the one for `c` into pixel[0, 2]; the other columns are left
-    as they are.  signal[0, slot] = how many runs had executed THIS instance on the detector object before."""
+    as they are.  signal[0, slot] = how many runs had executed THIS instance on the detector object before.
+    `trace` >= 0: column `trace` of pixel is the EXECUTION TRACE of the run: every instance that executes (whether it
+    owns a slot or not) appends the base-16 digit ident+1, so the column tells which model instances ran in this run
+    and in which order -- in any worker process (a model that is switched off must not show up)."""
     _count()
     got = dict(a=a, b=b, c=c, d=d)
     geo = detector.geometry
@@ -161,6 +165,11 @@ def encs(detector, ident=0, slots="", a=0.0, b=0.0, c=0.0, d=0.0, sleep_scale=0.
         total += t
         pix[:, int(slot)] = float(code)
         sig[:, int(slot)] = float(mem)
+    if int(trace) >= 0:
+        pix[:, int(trace)] = pix[:, int(trace)] * 16.0 + float(int(ident) % 13 + 1)
+        if pix.shape[1] > int(trace) + 1:
+            # one more column: the SETTINGS of the detector this run works on (small integers), as one code
+            pix[:, int(trace) + 1] = float(encode(detector_settings(detector))[0])
     detector.pixel.array = pix
     detector.signal.array = sig
     try:
@@ -173,6 +182,21 @@ def encs(detector, ident=0, slots="", a=0.0, b=0.0, c=0.0, d=0.0, sleep_scale=0.
         else:
             s = sleep_scale * ((int(sleep_mult) * total) % 5) / 4.0
         time.sleep(s)
+
+
+def detector_settings(detector):
+    """settings of the sub-objects of the detector (characteristics, geometry) and of the readout a model may read"""
+    out = []
+    for get in (lambda: detector.characteristics.pre_amplification, lambda: detector.characteristics.full_well_capacity,
+                lambda: detector.characteristics.adc_bit_resolution, lambda: detector.geometry.total_thickness,
+                lambda: detector.geometry.pixel_vert_size, lambda: detector.geometry.pixel_horz_size,
+                # ... and of the readout this run was started with (time of the only step, destructive or not)
+                lambda: detector.time, lambda: 1.0 if detector.non_destructive_readout else 0.0):
+        try:
+            out.append(float(get()))
+        except Exception:  # noqa: BLE001  (setting lost)
+            out.append(12.0)
+    return out
 
 
 def draw(detector, p0=0.0, n=1, sync=False, first=0.0, pause=0.0):
@@ -196,6 +220,22 @@ def draw(detector, p0=0.0, n=1, sync=False, first=0.0, pause=0.0):
     geo = detector.geometry
     detector.pixel.array = np.full((geo.row, geo.col), float(code))
     detector.signal.array = np.zeros((geo.row, geo.col))
+
+
+def calprobe(detector, pattern, gain=1.0, bias=0.0):
+    """pixel += gain * pattern + bias (calibration cases: `gain` and `bias` are the fitted variables; an instance
+    that is switched off must leave no trace in the simulated data)"""
+    p = np.array(pattern, dtype=float)
+    try:
+        prev = np.array(detector.pixel.array, dtype=float)
+    except Exception:  # noqa: BLE001  (not initialised yet)
+        prev = np.zeros(p.shape)
+    detector.pixel.array = prev + float(gain) * p + float(bias)
+
+
+def absdiff(simulated, target, weighting=None):
+    """figure of merit of the calibration cases: sum |target - simulated| (exact on dyadic data)"""
+    return float(np.nansum(np.abs(np.asarray(target, dtype=float) - np.asarray(simulated, dtype=float))))
 
 
 class SlowProblem:
